@@ -1,6 +1,6 @@
 import CalicoVerif.Model.C44
 import CalicoVerif.Proofs.C18
-/-! Helper lemmas for C44: the minimum scan, the invariant `Good` behind the no-rename theorem, and its
+/-! Helper lemmas for C44: the minimum scan, the invariant `Good` behind the full-property theorem, and its
 preservation by every operation. -/
 namespace CalicoVerif.C44
 open CalicoVerif.C18 (GoMap get set del get_set get_del NodupKeys nodupKeys_set nodupKeys_del nodupKeys_nil get_eq_some_iff)
@@ -104,7 +104,7 @@ theorem bestShadowed_some (sh : GoMap Nat Ep) (hn : NodupKeys sh) (name b : Nat)
 /-- `l` with the value at `id` replaced. -/
 def updL (l : Nat → Option Ep) (id : Nat) (v : Option Ep) : Nat → Option Ep := fun x => if x = id then v else l x
 
-/-- The invariant behind the no-rename theorems.  `l` = the live endpoints as far as the updates
+/-- The invariant behind the full-property theorems.  `l` = the live endpoints as far as the updates
 processed so far say; `P` = the updates of the current batch that are still pending (`[]` between
 batches).  With `P = []` the clauses say: active ∪ shadowed = live, an interface's holder is the
 minimum live id claiming it, and chains/routes are exactly the holders'. -/
@@ -130,80 +130,48 @@ structure Good (m : Mgr) (l : Nat → Option Ep) (P : Pending) : Prop where
   d3b : ∀ name, get m.ifaceToID name = none → get m.routes name = none
   nd : NodupKeys m.shadowed
   np : NodupKeys P
-  /-- no pending update renames a live endpoint -/
-  nr : ∀ id w, get P id = some (some w) → ∀ e, l id = some e → e.name = w.name
 
 /-- the tactic used for every clause: push `get` through `set`/`del`, then first-order reasoning. -/
 macro "clause" : tactic => `(tactic| (intros; (try simp only [get_set, get_del, updL] at *); grind))
 
-/-! ### Explicit forms of the composite operations -/
+/-- `Good` only looks at the maps through `get` (and at one-entry-per-key). -/
+theorem good_congr (m m' : Mgr) (l l' : Nat → Option Ep) (P P' : Pending) (g : Good m l P)
+    (h1 : ∀ k, get m'.active k = get m.active k) (h2 : ∀ k, get m'.ifaceToID k = get m.ifaceToID k)
+    (h3 : ∀ k, get m'.shadowed k = get m.shadowed k) (h4 : ∀ k, get m'.chainsOf k = get m.chainsOf k)
+    (h5 : ∀ k, get m'.chains k = get m.chains k) (h6 : ∀ k, get m'.routes k = get m.routes k)
+    (h7 : ∀ k, get P' k = get P k) (h8 : ∀ k, l' k = l k)
+    (n1 : NodupKeys m'.shadowed) (n2 : NodupKeys P') : Good m' l' P' := by
+  obtain ⟨a1, a2, a3, b1, b2, c, d1a, d1b, d2a, d2b, d3a, d3b, nd, np⟩ := g
+  constructor
+  · intro id e; rw [h1, h8]; exact a1 id e
+  · intro id e; rw [h3, h1, h8]; exact a2 id e
+  · intro id e; rw [h1, h3, h7, h8]; exact a3 id e
+  · intro n id; rw [h2]; intro h; obtain ⟨e, he, hn⟩ := b1 n id h; exact ⟨e, by rw [h1]; exact he, hn⟩
+  · intro id e; rw [h1, h2]; exact b2 id e
+  · intro id e; rw [h3]; intro h
+    rcases c id e h with ⟨a, ha, hl⟩ | h' | ⟨b, eb, hb, hn, hl⟩
+    · exact Or.inl ⟨a, by rw [h2]; exact ha, hl⟩
+    · exact Or.inr (Or.inl (by rw [h7]; exact h'))
+    · exact Or.inr (Or.inr ⟨b, eb, by rw [h7]; exact hb, hn, hl⟩)
+  · intro id e; rw [h1, h4]; exact d1a id e
+  · intro id; rw [h1, h4]; exact d1b id
+  · intro n id e; rw [h2, h1, h5]; exact d2a n id e
+  · intro n; rw [h2, h5]; exact d2b n
+  · intro n id e; rw [h2, h1, h6]; exact d3a n id e
+  · intro n; rw [h2, h6]; exact d3b n
+  · exact n1
+  · exact n2
 
-theorem activate_norename (m : Mgr) (id : Nat) (old : Option Ep) (w : Ep)
-    (h : ∀ o, old = some o → o.name = w.name) :
-    m.activate id old w = { m with
-      chains := set m.chains w.name ⟨id, w.up, w.data⟩,
-      chainsOf := set m.chainsOf id w.name,
-      routes := if w.up then set m.routes w.name (id, w.data) else del m.routes w.name,
-      active := set m.active id w,
-      ifaceToID := set m.ifaceToID w.name id,
-      shadowed := del m.shadowed id } := by
-  unfold Mgr.activate
-  cases old with
-  | none => rfl
-  | some o => simp [h o rfl]
+/-! ### The building blocks: claim an interface, release one, drop a removal -/
 
-theorem removeActive_some (m : Mgr) (a : Nat) (ea : Ep) (h2 : get m.chainsOf a = some ea.name) :
-    m.removeActiveWorkload (some ea) a = { m with
-      chains := del m.chains ea.name, chainsOf := del m.chainsOf a, routes := del m.routes ea.name,
-      ifaceToID := del m.ifaceToID ea.name, active := del m.active a } := by
-  unfold Mgr.removeActiveWorkload Mgr.removeChainsOf
-  simp [h2]
-
-theorem removeActive_none (m : Mgr) (a : Nat) (h2 : get m.chainsOf a = none) :
-    m.removeActiveWorkload none a = { m with chainsOf := del m.chainsOf a, active := del m.active a } := by
-  unfold Mgr.removeActiveWorkload Mgr.removeChainsOf
-  simp [h2]
-
-theorem process_update_free (m : Mgr) (pd : Pending) (id : Nat) (w : Ep)
-    (hfree : ∀ a, get m.ifaceToID w.name = some a → a = id) :
-    m.process pd id (some w) = (m.activate id (get m.active id) w, none) := by
-  unfold Mgr.process
-  cases h : get m.ifaceToID w.name with
-  | none => simp [h]
-  | some a => have := hfree a h; subst this; simp [h]
-
-theorem process_update_shadow (m : Mgr) (pd : Pending) (id : Nat) (w : Ep) (a : Nat)
-    (h : get m.ifaceToID w.name = some a) (hlt : a < id) :
-    m.process pd id (some w) = ({ m with shadowed := set m.shadowed id w }, none) := by
-  unfold Mgr.process
-  have hne : a ≠ id := by omega
-  simp [h, hne, hlt]
-
-theorem process_update_takeover (m : Mgr) (pd : Pending) (id : Nat) (w : Ep) (a : Nat) (ea : Ep)
-    (h : get m.ifaceToID w.name = some a) (hlt : id < a) (hea : get m.active a = some ea) :
-    m.process pd id (some w) =
-      ((({ m with shadowed := set m.shadowed a ea } : Mgr).removeActiveWorkload (some ea) a).activate id
-        (get m.active id) w, none) := by
-  unfold Mgr.process
-  have hne : a ≠ id := by omega
-  have hnlt : ¬ a < id := by omega
-  simp [h, hne, hnlt, hea]
-
-/-! ### One pending UPDATE is processed -/
-
-/-- U1: the endpoint holds its interface already, or the interface is free. -/
-theorem good_update_free (m : Mgr) (l : Nat → Option Ep) (P : Pending) (id : Nat) (w : Ep) (g : Good m l P)
+/-- U1: the endpoint holds its interface already (same name), or is not active and the interface is free. -/
+theorem good_claim_free (m : Mgr) (l : Nat → Option Ep) (P : Pending) (id : Nat) (w : Ep) (g : Good m l P)
     (hP : get P id = some (some w))
+    (hold : ∀ o, get m.active id = some o → o.name = w.name)
     (hfree : ∀ a, get m.ifaceToID w.name = some a → a = id) :
-    Good ({ m with
-      chains := set m.chains w.name ⟨id, w.up, w.data⟩,
-      chainsOf := set m.chainsOf id w.name,
-      routes := if w.up then set m.routes w.name (id, w.data) else del m.routes w.name,
-      active := set m.active id w,
-      ifaceToID := set m.ifaceToID w.name id,
-      shadowed := del m.shadowed id } : Mgr) (updL l id (some w)) (del P id) := by
-  obtain ⟨a1, a2, a3, b1, b2, c, d1a, d1b, d2a, d2b, d3a, d3b, nd, np, nr⟩ := g
-  have hnr := nr id w hP
+    Good (m.activate id w) (updL l id (some w)) (del P id) := by
+  obtain ⟨a1, a2, a3, b1, b2, c, d1a, d1b, d2a, d2b, d3a, d3b, nd, np⟩ := g
+  unfold Mgr.activate
   constructor
   · clause
   · clause
@@ -219,23 +187,13 @@ theorem good_update_free (m : Mgr) (l : Nat → Option Ep) (P : Pending) (id : N
   · intro n; cases hu : w.up <;> simp only [hu, get_set, get_del, updL] <;> grind
   · exact nodupKeys_del _ _ nd
   · exact nodupKeys_del _ _ np
-  · clause
 
-/-- U2: the interface is held by a smaller id: the endpoint is (re)shadowed. -/
-theorem good_update_shadow (m : Mgr) (l : Nat → Option Ep) (P : Pending) (id : Nat) (w : Ep) (a : Nat)
-    (g : Good m l P) (hP : get P id = some (some w))
+/-- U2: the endpoint is not active and its interface is held by a smaller id: it is (re)shadowed. -/
+theorem good_claim_shadow (m : Mgr) (l : Nat → Option Ep) (P : Pending) (id : Nat) (w : Ep) (a : Nat)
+    (g : Good m l P) (hP : get P id = some (some w)) (hna : get m.active id = none)
     (h : get m.ifaceToID w.name = some a) (hlt : a < id) :
     Good ({ m with shadowed := set m.shadowed id w } : Mgr) (updL l id (some w)) (del P id) := by
-  obtain ⟨a1, a2, a3, b1, b2, c, d1a, d1b, d2a, d2b, d3a, d3b, nd, np, nr⟩ := g
-  have hnr := nr id w hP
-  have hna : get m.active id = none := by
-    cases hact : get m.active id with
-    | none => rfl
-    | some e =>
-      have h1 := hnr e (a1 id e hact)
-      have h2 := b2 id e hact
-      rw [h1, h] at h2
-      simp only [Option.some.injEq] at h2; omega
+  obtain ⟨a1, a2, a3, b1, b2, c, d1a, d1b, d2a, d2b, d3a, d3b, nd, np⟩ := g
   constructor
   · clause
   · clause
@@ -251,11 +209,11 @@ theorem good_update_shadow (m : Mgr) (l : Nat → Option Ep) (P : Pending) (id :
   · clause
   · exact nodupKeys_set _ _ _ nd
   · exact nodupKeys_del _ _ np
-  · clause
 
-/-- U3: the interface is held by a LARGER id: the holder is shadowed and the endpoint takes over. -/
-theorem good_update_takeover (m : Mgr) (l : Nat → Option Ep) (P : Pending) (id : Nat) (w : Ep) (a : Nat) (ea : Ep)
-    (g : Good m l P) (hP : get P id = some (some w))
+/-- U3: the endpoint is not active and its interface is held by a LARGER id: the holder is shadowed and
+the endpoint takes over. -/
+theorem good_claim_takeover (m : Mgr) (l : Nat → Option Ep) (P : Pending) (id : Nat) (w : Ep) (a : Nat) (ea : Ep)
+    (g : Good m l P) (hP : get P id = some (some w)) (hna : get m.active id = none)
     (h : get m.ifaceToID w.name = some a) (hea : get m.active a = some ea) (hlt : id < a) :
     Good ({ m with
       active := set (del m.active a) id w,
@@ -265,19 +223,10 @@ theorem good_update_takeover (m : Mgr) (l : Nat → Option Ep) (P : Pending) (id
       chains := set (del m.chains w.name) w.name ⟨id, w.up, w.data⟩,
       routes := if w.up then set (del m.routes w.name) w.name (id, w.data) else del (del m.routes w.name) w.name } : Mgr)
       (updL l id (some w)) (del P id) := by
-  obtain ⟨a1, a2, a3, b1, b2, c, d1a, d1b, d2a, d2b, d3a, d3b, nd, np, nr⟩ := g
-  have hnr := nr id w hP
+  obtain ⟨a1, a2, a3, b1, b2, c, d1a, d1b, d2a, d2b, d3a, d3b, nd, np⟩ := g
   have hean : ea.name = w.name := by
     obtain ⟨e, he, hn⟩ := b1 _ _ h
     rw [hea] at he; cases he; exact hn
-  have hna : get m.active id = none := by
-    cases hact : get m.active id with
-    | none => rfl
-    | some e =>
-      have h1 := hnr e (a1 id e hact)
-      have h2 := b2 id e hact
-      rw [h1, h] at h2
-      simp only [Option.some.injEq] at h2; omega
   have hsa : get m.shadowed a = none := by
     cases hs : get m.shadowed a with
     | none => rfl
@@ -297,9 +246,143 @@ theorem good_update_takeover (m : Mgr) (l : Nat → Option Ep) (P : Pending) (id
   · intro n; cases hu : w.up <;> simp only [hu, get_set, get_del, updL] <;> grind
   · exact nodupKeys_del _ _ (nodupKeys_set _ _ _ nd)
   · exact nodupKeys_del _ _ np
-  · clause
 
-/-! ### One pending REMOVAL is processed -/
+/-- what releasing interface `o.name` (held by the active endpoint `id`) does to the maps -/
+def rel (m : Mgr) (id : Nat) (o : Ep) : Mgr :=
+  { m with
+    chains := del m.chains o.name, chainsOf := del m.chainsOf id, routes := del m.routes o.name,
+    ifaceToID := del m.ifaceToID o.name, active := del m.active id }
+
+/-- Release, nobody to promote: every endpoint shadowed on the released name has an entry of its own
+pending.  The entry of `id` itself (if any) stays pending; as far as `l` goes `id` is gone for now. -/
+theorem good_release_none (m : Mgr) (l : Nat → Option Ep) (P : Pending) (id : Nat) (o : Ep) (g : Good m l P)
+    (he : get m.active id = some o)
+    (hnone : ∀ j ej, get m.shadowed j = some ej → get P j = none → ej.name ≠ o.name) :
+    Good (rel m id o) (updL l id none) P := by
+  obtain ⟨a1, a2, a3, b1, b2, c, d1a, d1b, d2a, d2b, d3a, d3b, nd, np⟩ := g
+  unfold rel
+  constructor
+  · clause
+  · clause
+  · clause
+  · clause
+  · clause
+  · intro i ei hs
+    simp only [get_del] at hs ⊢
+    rcases c i ei hs with ⟨a, ha, hlt⟩ | h2 | h3
+    · by_cases hn : o.name = ei.name
+      · right; left
+        intro hnone'
+        exact hnone i ei hs hnone' hn.symm
+      · left; exact ⟨a, by simp [hn, ha], hlt⟩
+    · right; left; exact h2
+    · right; right; exact h3
+  · clause
+  · clause
+  · clause
+  · clause
+  · clause
+  · clause
+  · exact nd
+  · exact np
+
+/-- Release with promotion of `b`, the smallest endpoint shadowed on the released name that has no entry
+of its own pending. -/
+theorem good_release_some (m : Mgr) (l : Nat → Option Ep) (P : Pending) (id : Nat) (o : Ep) (b : Nat) (eb : Ep)
+    (g : Good m l P) (he : get m.active id = some o)
+    (hb : get m.shadowed b = some eb) (hpb : get P b = none) (hbn : eb.name = o.name)
+    (hmin : ∀ j ej, get m.shadowed j = some ej → get P j = none → ej.name = o.name → b ≤ j) :
+    Good ({ rel m id o with shadowed := del m.shadowed b } : Mgr) (updL l id none) (set P b (some eb)) := by
+  obtain ⟨a1, a2, a3, b1, b2, c, d1a, d1b, d2a, d2b, d3a, d3b, nd, np⟩ := g
+  have hbid : b ≠ id := by
+    intro h; subst h; have := (a2 b eb hb).2; rw [he] at this; cases this
+  have hlb := (a2 b eb hb).1
+  unfold rel
+  constructor
+  · clause
+  · clause
+  · clause
+  · clause
+  · clause
+  · intro i ei hs
+    simp only [get_del, get_set] at hs ⊢
+    have hi2 : b ≠ i := by intro h; subst h; simp at hs
+    simp only [hi2, if_false] at hs ⊢
+    rcases c i ei hs with ⟨a, ha, hlt⟩ | h2 | ⟨b', eb', hb2, hbn2, hlt⟩
+    · by_cases hn : o.name = ei.name
+      · by_cases hpi : get P i = none
+        · right; right
+          refine ⟨b, eb, by simp, by rw [hbn, hn], ?_⟩
+          have := hmin i ei hs hpi hn.symm
+          omega
+        · right; left; exact hpi
+      · left; exact ⟨a, by simp [hn, ha], hlt⟩
+    · right; left; exact h2
+    · right; right
+      refine ⟨b', eb', ?_, hbn2, hlt⟩
+      have h2 : b ≠ b' := by intro h; subst h; rw [hpb] at hb2; cases hb2
+      simp [h2, hb2]
+  · clause
+  · clause
+  · clause
+  · clause
+  · clause
+  · clause
+  · exact nodupKeys_del _ _ nd
+  · exact nodupKeys_set _ _ _ np
+
+/-- A processed removal entry is dropped (the endpoint is gone from every map already). -/
+theorem good_drop_removal (m : Mgr) (l : Nat → Option Ep) (P : Pending) (id : Nat) (g : Good m l P)
+    (hP : get P id = some none) (hl : l id = none) :
+    Good m l (del P id) := by
+  obtain ⟨a1, a2, a3, b1, b2, c, d1a, d1b, d2a, d2b, d3a, d3b, nd, np⟩ := g
+  constructor
+  · clause
+  · clause
+  · clause
+  · clause
+  · clause
+  · intro i ei hs
+    simp only [get_del]
+    have hli := (a2 i ei hs).1
+    have hi : id ≠ i := by intro h; subst h; rw [hl] at hli; cases hli
+    rcases c i ei hs with h1 | h2 | ⟨b', eb', hb2, hbn2, hlt⟩
+    · exact Or.inl h1
+    · right; left; simp [hi, h2]
+    · right; right
+      refine ⟨b', eb', ?_, hbn2, hlt⟩
+      have : id ≠ b' := by intro h; subst h; rw [hP] at hb2; cases hb2
+      simp [this, hb2]
+  · clause
+  · clause
+  · clause
+  · clause
+  · clause
+  · clause
+  · exact nd
+  · exact nodupKeys_del _ _ np
+
+/-- R1: removal of an endpoint that is not active (shadowed, promoted-but-pending, or unknown). -/
+theorem good_remove_inactive (m : Mgr) (l : Nat → Option Ep) (P : Pending) (id : Nat) (g : Good m l P)
+    (hP : get P id = some none) (hna : get m.active id = none) :
+    Good ({ m with chainsOf := del m.chainsOf id, active := del m.active id, shadowed := del m.shadowed id } : Mgr)
+      (updL l id none) (del P id) := by
+  obtain ⟨a1, a2, a3, b1, b2, c, d1a, d1b, d2a, d2b, d3a, d3b, nd, np⟩ := g
+  constructor
+  · clause
+  · clause
+  · clause
+  · clause
+  · clause
+  · clause
+  · clause
+  · clause
+  · clause
+  · clause
+  · clause
+  · clause
+  · exact nodupKeys_del _ _ nd
+  · exact nodupKeys_del _ _ np
 
 /-- the shadowed endpoints that have no update/removal of their own pending -/
 def candidates (sh : GoMap Nat Ep) (pd : Pending) : GoMap Nat Ep := sh.filter (fun p => (get pd p.1).isNone)
@@ -326,227 +409,426 @@ theorem nodup_candidates (sh : GoMap Nat Ep) (pd : Pending) (h : NodupKeys sh) :
   unfold NodupKeys C18.keys candidates at *
   exact h.sublist ((List.filter_sublist).map _)
 
-theorem process_remove_inactive (m : Mgr) (pd : Pending) (id : Nat) (he : get m.active id = none)
+/-! ### Explicit forms of the pieces of `process` -/
+
+theorem removeActive_some (m : Mgr) (a : Nat) (ea : Ep) (h2 : get m.chainsOf a = some ea.name) :
+    m.removeActiveWorkload (some ea) a = rel m a ea := by
+  unfold Mgr.removeActiveWorkload Mgr.removeChainsOf rel
+  simp [h2]
+
+theorem removeActive_none (m : Mgr) (a : Nat) (h2 : get m.chainsOf a = none) :
+    m.removeActiveWorkload none a = { m with chainsOf := del m.chainsOf a, active := del m.active a } := by
+  unfold Mgr.removeActiveWorkload Mgr.removeChainsOf
+  simp [h2]
+
+/-- what the promotion scan finds, stated on the shadowed map itself -/
+theorem promote_cases (m : Mgr) (pd : Pending) (n : Nat) (hn : NodupKeys m.shadowed) :
+    (m.promote pd n = (m, none) ∧ ∀ j ej, get m.shadowed j = some ej → get pd j = none → ej.name ≠ n) ∨
+    (∃ b eb, m.promote pd n = ({ m with shadowed := del m.shadowed b }, some (b, eb)) ∧
+      get m.shadowed b = some eb ∧ get pd b = none ∧ eb.name = n ∧
+      ∀ j ej, get m.shadowed j = some ej → get pd j = none → ej.name = n → b ≤ j) := by
+  have hnc := nodup_candidates m.shadowed pd hn
+  have hcand : ∀ j ej, get m.shadowed j = some ej → get pd j = none → get (candidates m.shadowed pd) j = some ej := by
+    intro j ej h1 h2; rw [get_candidates, h2]; simp [h1]
+  unfold Mgr.promote
+  cases hb : bestShadowed (List.filter (fun p => (get pd p.1).isNone) m.shadowed) n with
+  | none =>
+    left
+    refine ⟨rfl, ?_⟩
+    intro j ej h1 h2
+    exact bestShadowed_none _ hnc n hb j ej (hcand j ej h1 h2)
+  | some b =>
+    right
+    obtain ⟨⟨eb, hgb, hbn⟩, hmin⟩ := bestShadowed_some _ hnc n b hb
+    have hgb2 : get (candidates m.shadowed pd) b = some eb := hgb
+    rw [get_candidates] at hgb2
+    have hpb : get pd b = none := by
+      cases hq : get pd b with
+      | none => rfl
+      | some q => simp [hq] at hgb2
+    have hsb : get m.shadowed b = some eb := by simpa [hpb] using hgb2
+    refine ⟨b, eb, ?_, hsb, hpb, hbn, ?_⟩
+    · simp only [hsb]
+    · intro j ej h1 h2 h3
+      exact hmin j ej (hcand j ej h1 h2) h3
+
+theorem claim_same (m : Mgr) (pd : Pending) (id : Nat) (old : Option Ep) (w : Ep)
+    (h : ∀ o, old = some o → o.name = w.name) : m.claim pd id old w = (m.activate id w, none) := by
+  unfold Mgr.claim
+  cases old with
+  | none => rfl
+  | some o => simp [h o rfl]
+
+/-- the rename clean-up of the old interface name (the id's own entries are overwritten by `activate`) -/
+def relName (m : Mgr) (o : Ep) : Mgr :=
+  { m with
+    chains := del m.chains o.name, routes := del m.routes o.name, ifaceToID := del m.ifaceToID o.name }
+
+theorem claim_rename (m : Mgr) (pd : Pending) (id : Nat) (o : Ep) (w : Ep) (h : o.name ≠ w.name)
+    (hc : get m.chainsOf id = some o.name) :
+    m.claim pd id (some o) w = (((relName m o).promote pd o.name).1.activate id w, ((relName m o).promote pd o.name).2) := by
+  unfold Mgr.claim Mgr.removeChainsOf relName
+  simp [h, hc]
+
+theorem get_pendU (P : Pending) (id : Nat) (v : Option Ep) (h : get P id = some v) (j : Nat) :
+    get (set (del P id) id v) j = get P j := by
+  rw [get_set, get_del]
+  by_cases e : id = j
+  · subst e; simp [h]
+  · simp [e]
+
+/-- push `get` through every map operation, then decide -/
+macro "mapeq" : tactic =>
+  `(tactic| (intro k; simp only [Mgr.activate, rel, relName, get_set, get_del]; all_goals ((try split) <;> (try grind))))
+
+/-- the pending map after an entry has been processed -/
+def nextP (P : Pending) (id : Nat) (q : Option (Nat × Ep)) : Pending :=
+  match q with
+  | some (b, e) => set (del P id) b (some e)
+  | none => del P id
+
+/-- what `good_process` says about one processed entry -/
+structure StepOK (m : Mgr) (l : Nat → Option Ep) (P : Pending) (id : Nat) (w : Option Ep)
+    (r : Mgr × Option (Nat × Ep)) : Prop where
+  good : Good r.1 (updL l id w) (nextP P id r.2)
+  promo : ∀ b e, r.2 = some (b, e) →
+    (w = none ∨ (get m.active id).isSome = true) ∧ get P b = none ∧ b ≠ id ∧ l b = some e ∧ get r.1.active b = none
+  mono : ∀ x, x ≠ id → (get r.1.active x).isSome = true → (get m.active x).isSome = true
+
+theorem updL_updL (l : Nat → Option Ep) (id : Nat) (v : Option Ep) (k : Nat) :
+    updL l id v k = updL (updL l id none) id v k := by
+  unfold updL; split <;> rfl
+
+/-- outcome of releasing `o.name` (held by the active `id`) with the promotion scan run on `m0` -/
+def Released (m m0 : Mgr) (l : Nat → Option Ep) (P pd : Pending) (id : Nat) (o : Ep) : Prop :=
+  (m0.promote pd o.name = (m0, none) ∧ Good (rel m id o) (updL l id none) P) ∨
+  (∃ b eb, m0.promote pd o.name = ({ m0 with shadowed := del m0.shadowed b }, some (b, eb)) ∧
+    Good ({ rel m id o with shadowed := del m.shadowed b } : Mgr) (updL l id none) (set P b (some eb)) ∧
+    get m.shadowed b = some eb ∧ get P b = none ∧ b ≠ id ∧ l b = some eb ∧ get m.active b = none)
+
+theorem release_facts (m : Mgr) (l : Nat → Option Ep) (P : Pending) (id : Nat) (o : Ep) (b : Nat) (eb : Ep)
+    (g : Good m l P) (he : get m.active id = some o) (hb : get m.shadowed b = some eb) :
+    b ≠ id ∧ l b = some eb ∧ get m.active b = none := by
+  have h2 := g.a2 b eb hb
+  refine ⟨?_, h2.1, h2.2⟩
+  intro h; subst h; rw [he] at h2; cases h2.2
+
+/-- the scan runs on a state whose shadowed map is (pointwise) `m`'s -/
+theorem release_plain (m m0 : Mgr) (l : Nat → Option Ep) (P pd : Pending) (id : Nat) (o : Ep)
+    (g : Good m l P) (he : get m.active id = some o) (hpd : ∀ j, j ≠ id → get pd j = get P j)
+    (hsh : ∀ j, get m0.shadowed j = get m.shadowed j) (hn0 : NodupKeys m0.shadowed) : Released m m0 l P pd id o := by
+  have hsid : get m.shadowed id = none := by
+    cases hs : get m.shadowed id with
+    | none => rfl
+    | some e => have := (g.a2 id e hs).2; rw [he] at this; cases this
+  have hji : ∀ j ej, get m.shadowed j = some ej → j ≠ id := by
+    intro j ej hj h; subst h; rw [hsid] at hj; cases hj
+  rcases promote_cases m0 pd o.name hn0 with ⟨hp, hnone⟩ | ⟨b, eb, hp, hb, hpb, hbn, hmin⟩
+  · left
+    refine ⟨hp, good_release_none m l P id o g he ?_⟩
+    intro j ej hj hpj
+    exact hnone j ej (by rw [hsh]; exact hj) (by rw [hpd j (hji j ej hj)]; exact hpj)
+  · right
+    rw [hsh] at hb
+    rw [hpd b (hji b eb hb)] at hpb
+    obtain ⟨f1, f2, f3⟩ := release_facts m l P id o b eb g he hb
+    refine ⟨b, eb, hp, good_release_some m l P id o b eb g he hb hpb hbn ?_, hb, hpb, f1, f2, f3⟩
+    intro j ej hj hpj hn
+    exact hmin j ej (by rw [hsh]; exact hj) (by rw [hpd j (hji j ej hj)]; exact hpj) hn
+
+/-- the scan runs after the larger holder `a` of the NEW name has just been put into the shadowed map -/
+theorem release_extra (m m0 : Mgr) (l : Nat → Option Ep) (P pd : Pending) (id : Nat) (o : Ep) (a : Nat) (ea : Ep)
+    (g : Good m l P) (he : get m.active id = some o) (hpd : ∀ j, get pd j = get P j)
+    (hsh : m0.shadowed = set m.shadowed a ea) (hne : ea.name ≠ o.name) (hsa : get m.shadowed a = none) :
+    Released m m0 l P pd id o := by
+  have hget : ∀ j, j ≠ a → get m0.shadowed j = get m.shadowed j := by
+    intro j hj; rw [hsh, get_set]; simp [Ne.symm hj]
+  rcases promote_cases m0 pd o.name (by rw [hsh]; exact nodupKeys_set _ _ _ g.nd) with
+    ⟨hp, hnone⟩ | ⟨b, eb, hp, hb, hpb, hbn, hmin⟩
+  · left
+    refine ⟨hp, good_release_none m l P id o g he ?_⟩
+    intro j ej hj hpj
+    have hja : j ≠ a := by intro h; subst h; rw [hsa] at hj; cases hj
+    exact hnone j ej (by rw [hget j hja]; exact hj) (by rw [hpd]; exact hpj)
+  · right
+    have hba : b ≠ a := by
+      intro h; subst h
+      rw [hsh, get_set] at hb; simp at hb; subst hb; exact hne hbn
+    rw [hget b hba] at hb
+    rw [hpd] at hpb
+    obtain ⟨f1, f2, f3⟩ := release_facts m l P id o b eb g he hb
+    refine ⟨b, eb, hp, good_release_some m l P id o b eb g he hb hpb hbn ?_, hb, hpb, f1, f2, f3⟩
+    intro j ej hj hpj hn
+    have hja : j ≠ a := by intro h; subst h; rw [hsa] at hj; cases hj
+    exact hmin j ej (by rw [hget j hja]; exact hj) (by rw [hpd]; exact hpj) hn
+
+
+theorem nextP_none (P : Pending) (id : Nat) : nextP P id none = del P id := rfl
+theorem nextP_some (P : Pending) (id b : Nat) (e : Ep) : nextP P id (some (b, e)) = set (del P id) b (some e) := rfl
+
+theorem pu_free (m : Mgr) (pd : Pending) (id : Nat) (w : Ep)
+    (hfree : ∀ a, get m.ifaceToID w.name = some a → a = id) :
+    m.process pd id (some w) = m.claim (set pd id (some w)) id (get m.active id) w := by
+  unfold Mgr.process
+  cases h : get m.ifaceToID w.name with
+  | none => simp [h]
+  | some a => have := hfree a h; subst this; simp [h]
+
+theorem pu_shadow_inactive (m : Mgr) (pd : Pending) (id : Nat) (w : Ep) (a : Nat)
+    (h : get m.ifaceToID w.name = some a) (hlt : a < id) (hna : get m.active id = none) :
+    m.process pd id (some w) = ({ m with shadowed := set m.shadowed id w }, none) := by
+  unfold Mgr.process
+  have hne : a ≠ id := by omega
+  simp [h, hne, hlt, hna]
+
+theorem pu_shadow_active (m : Mgr) (pd : Pending) (id : Nat) (w : Ep) (a : Nat) (o : Ep)
+    (h : get m.ifaceToID w.name = some a) (hlt : a < id) (ha : get m.active id = some o) :
+    m.process pd id (some w) =
+      (({ ((m.removeActiveWorkload (some o) id).promote (set pd id (some w)) o.name).1 with
+          shadowed := set ((m.removeActiveWorkload (some o) id).promote (set pd id (some w)) o.name).1.shadowed id w } : Mgr),
+       ((m.removeActiveWorkload (some o) id).promote (set pd id (some w)) o.name).2) := by
+  unfold Mgr.process
+  have hne : a ≠ id := by omega
+  simp [h, hne, hlt, ha]
+
+theorem pu_takeover (m : Mgr) (pd : Pending) (id : Nat) (w : Ep) (a : Nat) (ea : Ep)
+    (h : get m.ifaceToID w.name = some a) (hlt : id < a) (hea : get m.active a = some ea) :
+    m.process pd id (some w) =
+      (({ m with shadowed := set m.shadowed a ea } : Mgr).removeActiveWorkload (some ea) a).claim
+        (set pd id (some w)) id (get m.active id) w := by
+  unfold Mgr.process
+  have hne : a ≠ id := by omega
+  have hnlt : ¬ a < id := by omega
+  simp [h, hne, hnlt, hea]
+
+theorem good_process_update (m : Mgr) (l : Nat → Option Ep) (P : Pending) (id : Nat) (w : Ep) (g : Good m l P)
+    (hP : get P id = some (some w)) : StepOK m l P id (some w) (m.process (del P id) id (some w)) := by
+  have hpu : ∀ j, get (set (del P id) id (some w)) j = get P j := get_pendU P id (some w) hP
+  cases hold : get m.active id with
+  | none =>
+    -- the endpoint is not active
+    cases h : get m.ifaceToID w.name with
+    | none =>
+      have hf : ∀ a, get m.ifaceToID w.name = some a → a = id := by intro a ha; rw [h] at ha; cases ha
+      rw [pu_free m _ id w hf, hold, claim_same _ _ id none w (by intro o ho; cases ho)]
+      refine ⟨good_claim_free m l P id w g hP (by intro o ho; rw [hold] at ho; cases ho) hf, (by intro b e hbe; cases hbe), ?_⟩
+      intro x hx; simp only [Mgr.activate, get_set]; simp [Ne.symm hx]
+    | some a =>
+      by_cases hai : a = id
+      · subst hai
+        obtain ⟨e, he, _⟩ := g.b1 _ _ h
+        rw [hold] at he; cases he
+      · by_cases hlt : a < id
+        · rw [pu_shadow_inactive m _ id w a h hlt hold]
+          refine ⟨good_claim_shadow m l P id w a g hP hold h hlt, (by intro b e hbe; cases hbe), ?_⟩
+          intro x _ hx; exact hx
+        · have hlt' : id < a := by omega
+          obtain ⟨ea, hea, hean⟩ := g.b1 _ _ h
+          rw [pu_takeover m _ id w a ea h hlt' hea, hold, claim_same _ _ id none w (by intro o ho; cases ho)]
+          have hc : get ({ m with shadowed := set m.shadowed a ea } : Mgr).chainsOf a = some ea.name := g.d1a a ea hea
+          rw [removeActive_some _ a ea hc]
+          have gt := good_claim_takeover m l P id w a ea g hP hold h hea hlt'
+          refine ⟨good_congr _ _ _ _ _ _ gt ?_ ?_ ?_ ?_ ?_ ?_ (fun _ => rfl) (fun _ => rfl) ?_ gt.np, (by intro b e hbe; cases hbe), ?_⟩
+          · mapeq
+          · intro k; simp only [Mgr.activate, rel, get_set, get_del, hean]
+          · mapeq
+          · mapeq
+          · intro k; simp only [Mgr.activate, rel, get_set, get_del, hean]
+          · intro k; cases hu : w.up <;> simp only [Mgr.activate, rel, get_set, get_del, hean, hu, if_true, if_false, Bool.false_eq_true]
+          · simp only [Mgr.activate, rel]; exact nodupKeys_del _ _ (nodupKeys_set _ _ _ g.nd)
+          · intro x hx; simp only [Mgr.activate, rel, get_set, get_del]; simp only [Ne.symm hx, if_false]; split <;> simp
+  | some o =>
+    -- the endpoint is active (as version `o`)
+    have hc : get m.chainsOf id = some o.name := g.d1a id o hold
+    have hio : get m.ifaceToID o.name = some id := g.b2 id o hold
+    have hnP : ∀ b eb, b ≠ id → ∀ k, get (nextP P id (some (b, eb))) k = get (del (set P b (some eb)) id) k := by
+      intro b eb hb k; simp only [nextP, get_set, get_del]; grind
+    have hnd2 : ∀ b eb, NodupKeys (nextP P id (some (b, eb))) := fun b eb => nodupKeys_set _ _ _ (nodupKeys_del _ _ g.np)
+    cases h : get m.ifaceToID w.name with
+    | none =>
+      have hne : o.name ≠ w.name := by intro e; rw [e, h] at hio; cases hio
+      have hf : ∀ a, get m.ifaceToID w.name = some a → a = id := by intro a ha; rw [h] at ha; cases ha
+      rw [pu_free m _ id w hf, hold, claim_rename m _ id o w hne hc]
+      rcases release_plain m (relName m o) l P _ id o g hold (fun j _ => hpu j) (fun _ => rfl) g.nd with
+        ⟨hp, gr⟩ | ⟨b, eb, hp, gr, hb, hpb, hbid, hlb, hab⟩
+      · rw [hp]
+        have gc := good_claim_free (rel m id o) (updL l id none) P id w gr hP
+          (by intro o' ho'; simp [rel, get_del] at ho')
+          (by intro a ha; simp only [rel, get_del] at ha; split at ha <;> simp_all)
+        refine ⟨good_congr _ _ _ _ _ _ gc ?_ ?_ ?_ ?_ ?_ ?_ (fun _ => rfl) (updL_updL l id (some w)) ?_ gc.np,
+          (by intro b e hbe; cases hbe), ?_⟩
+        · mapeq
+        · mapeq
+        · mapeq
+        · mapeq
+        · mapeq
+        · mapeq
+        · simp only [Mgr.activate, relName]; exact nodupKeys_del _ _ g.nd
+        · intro x hx; simp only [Mgr.activate, relName, get_set]; simp [Ne.symm hx]
+      · rw [hp]
+        have hPb : get (set P b (some eb)) id = some (some w) := by rw [get_set]; simp [hbid, hP]
+        have gc := good_claim_free ({ rel m id o with shadowed := del m.shadowed b } : Mgr) (updL l id none)
+          (set P b (some eb)) id w gr hPb
+          (by intro o' ho'; simp [rel, get_del] at ho')
+          (by intro a ha; simp only [rel, get_del] at ha; split at ha <;> simp_all)
+        refine ⟨good_congr _ _ _ _ _ _ gc ?_ ?_ ?_ ?_ ?_ ?_ (hnP b eb hbid) (updL_updL l id (some w)) ?_ (hnd2 b eb), ?_, ?_⟩
+        · mapeq
+        · mapeq
+        · mapeq
+        · mapeq
+        · mapeq
+        · mapeq
+        · simp only [Mgr.activate, relName]; exact nodupKeys_del _ _ (nodupKeys_del _ _ g.nd)
+        · intro b' e' hbe; simp only [Option.some.injEq, Prod.mk.injEq] at hbe; obtain ⟨rfl, rfl⟩ := hbe
+          refine ⟨Or.inr (by simp [hold]), hpb, hbid, hlb, ?_⟩
+          simp only [Mgr.activate, relName, get_set]; simp [Ne.symm hbid, hab]
+        · intro x hx; simp only [Mgr.activate, relName, get_set]; simp [Ne.symm hx]
+    | some a =>
+      by_cases hai : a = id
+      · -- the endpoint keeps its interface name
+        subst hai
+        have hsame : o.name = w.name := by
+          obtain ⟨e, he, hn⟩ := g.b1 _ _ h
+          rw [hold] at he; cases he; exact hn
+        have hf : ∀ a', get m.ifaceToID w.name = some a' → a' = a := by
+          intro a' ha'; rw [h] at ha'; cases ha'; rfl
+        rw [pu_free m _ a w hf, hold, claim_same _ _ a (some o) w (by intro o' ho'; cases ho'; exact hsame)]
+        refine ⟨good_claim_free m l P a w g hP (by intro o' ho'; rw [hold] at ho'; cases ho'; exact hsame) hf,
+          (by intro b e hbe; cases hbe), ?_⟩
+        intro x hx; simp only [Mgr.activate, get_set]; simp [Ne.symm hx]
+      · have hne : o.name ≠ w.name := by
+          intro e; rw [e, h] at hio; simp only [Option.some.injEq] at hio; exact hai hio
+        by_cases hlt : a < id
+        · -- D3: shadowed behind a smaller holder; the old interface is released
+          rw [pu_shadow_active m _ id w a o h hlt hold, removeActive_some m id o hc]
+          have hna' : get (rel m id o).active id = none := by simp [rel, get_del]
+          have h' : get (rel m id o).ifaceToID w.name = some a := by simp [rel, get_del, hne, h]
+          rcases release_plain m (rel m id o) l P _ id o g hold (fun j _ => hpu j) (fun _ => rfl) g.nd with
+            ⟨hp, gr⟩ | ⟨b, eb, hp, gr, hb, hpb, hbid, hlb, hab⟩
+          · rw [hp]
+            have gc := good_claim_shadow (rel m id o) (updL l id none) P id w a gr hP hna' h' hlt
+            refine ⟨good_congr _ _ _ _ _ _ gc (fun _ => rfl) (fun _ => rfl) (fun _ => rfl) (fun _ => rfl) (fun _ => rfl)
+              (fun _ => rfl) (fun _ => rfl) (updL_updL l id (some w)) gc.nd gc.np, (by intro b e hbe; cases hbe), ?_⟩
+            intro x hx; simp only [rel, get_del]; simp [Ne.symm hx]
+          · rw [hp]
+            have hPb : get (set P b (some eb)) id = some (some w) := by rw [get_set]; simp [hbid, hP]
+            have gc := good_claim_shadow ({ rel m id o with shadowed := del m.shadowed b } : Mgr) (updL l id none)
+              (set P b (some eb)) id w a gr hPb hna' h' hlt
+            refine ⟨good_congr _ _ _ _ _ _ gc (fun _ => rfl) (fun _ => rfl) (fun _ => rfl) (fun _ => rfl) (fun _ => rfl)
+              (fun _ => rfl) (hnP b eb hbid) (updL_updL l id (some w)) gc.nd (hnd2 b eb), ?_, ?_⟩
+            · intro b' e' hbe; simp only [Option.some.injEq, Prod.mk.injEq] at hbe; obtain ⟨rfl, rfl⟩ := hbe
+              refine ⟨Or.inr (by simp [hold]), hpb, hbid, hlb, ?_⟩
+              simp only [rel, get_del]; simp [Ne.symm hbid, hab]
+            · intro x hx; simp only [rel, get_del]; simp [Ne.symm hx]
+        · -- takeover from a larger holder, with a rename
+          have hlt' : id < a := by omega
+          obtain ⟨ea, hea, hean⟩ := g.b1 _ _ h
+          have hsa : get m.shadowed a = none := by
+            cases hs : get m.shadowed a with
+            | none => rfl
+            | some e => have := (g.a2 a e hs).2; rw [hea] at this; cases this
+          have hca : get ({ m with shadowed := set m.shadowed a ea } : Mgr).chainsOf a = some ea.name := g.d1a a ea hea
+          rw [pu_takeover m _ id w a ea h hlt' hea, hold, removeActive_some _ a ea hca]
+          have hc' : get (rel ({ m with shadowed := set m.shadowed a ea } : Mgr) a ea).chainsOf id = some o.name := by
+            simp [rel, get_del, hai, hc]
+          rw [claim_rename _ _ id o w hne hc']
+          have hna' : get (rel m id o).active id = none := by simp [rel, get_del]
+          have h' : get (rel m id o).ifaceToID w.name = some a := by simp [rel, get_del, hne, h]
+          have hea' : get (rel m id o).active a = some ea := by simp [rel, get_del, Ne.symm hai, hea]
+          rcases release_extra m (relName (rel ({ m with shadowed := set m.shadowed a ea } : Mgr) a ea) o) l P _ id o a ea
+              g hold hpu rfl (by rw [hean]; exact Ne.symm hne) hsa with
+            ⟨hp, gr⟩ | ⟨b, eb, hp, gr, hb, hpb, hbid, hlb, hab⟩
+          · rw [hp]
+            have gc := good_claim_takeover (rel m id o) (updL l id none) P id w a ea gr hP hna' h' hea' hlt'
+            refine ⟨good_congr _ _ _ _ _ _ gc ?_ ?_ ?_ ?_ ?_ ?_ (fun _ => rfl) (updL_updL l id (some w)) ?_ gc.np,
+              (by intro b e hbe; cases hbe), ?_⟩
+            · mapeq
+            · intro k; simp only [Mgr.activate, rel, relName, get_set, get_del, hean]; grind
+            · mapeq
+            · mapeq
+            · intro k; simp only [Mgr.activate, rel, relName, get_set, get_del, hean]; grind
+            · intro k; cases hu : w.up <;> simp only [Mgr.activate, rel, relName, get_set, get_del, hean, hu, if_true, if_false, Bool.false_eq_true] <;> grind
+            · simp only [Mgr.activate, rel, relName]; exact nodupKeys_del _ _ (nodupKeys_set _ _ _ g.nd)
+            · intro x hx; simp only [Mgr.activate, rel, relName, get_set, get_del]; simp only [Ne.symm hx, if_false]; split <;> simp
+          · rw [hp]
+            have hPb : get (set P b (some eb)) id = some (some w) := by rw [get_set]; simp [hbid, hP]
+            have hba : b ≠ a := by intro e; subst e; rw [hsa] at hb; cases hb
+            have gc := good_claim_takeover ({ rel m id o with shadowed := del m.shadowed b } : Mgr) (updL l id none)
+              (set P b (some eb)) id w a ea gr hPb hna' h' hea' hlt'
+            refine ⟨good_congr _ _ _ _ _ _ gc ?_ ?_ ?_ ?_ ?_ ?_ (hnP b eb hbid) (updL_updL l id (some w)) ?_ (hnd2 b eb), ?_, ?_⟩
+            · mapeq
+            · intro k; simp only [Mgr.activate, rel, relName, get_set, get_del, hean]; grind
+            · mapeq
+            · mapeq
+            · intro k; simp only [Mgr.activate, rel, relName, get_set, get_del, hean]; grind
+            · intro k; cases hu : w.up <;> simp only [Mgr.activate, rel, relName, get_set, get_del, hean, hu, if_true, if_false, Bool.false_eq_true] <;> grind
+            · simp only [Mgr.activate, rel, relName]
+              exact nodupKeys_del _ _ (nodupKeys_del _ _ (nodupKeys_set _ _ _ g.nd))
+            · intro b' e' hbe; simp only [Option.some.injEq, Prod.mk.injEq] at hbe; obtain ⟨rfl, rfl⟩ := hbe
+              refine ⟨Or.inr (by simp [hold]), hpb, hbid, hlb, ?_⟩
+              simp only [Mgr.activate, rel, relName, get_set, get_del]; simp [Ne.symm hbid, hba, hab]
+            · intro x hx; simp only [Mgr.activate, rel, relName, get_set, get_del]; simp only [Ne.symm hx, if_false]; split <;> simp
+
+theorem pr_inactive (m : Mgr) (pd : Pending) (id : Nat) (he : get m.active id = none)
     (hc : get m.chainsOf id = none) :
     m.process pd id none =
       ({ m with chainsOf := del m.chainsOf id, active := del m.active id, shadowed := del m.shadowed id }, none) := by
   unfold Mgr.process
   simp [he, removeActive_none m id hc]
 
-theorem process_remove_active_none (m : Mgr) (pd : Pending) (id : Nat) (e : Ep) (he : get m.active id = some e)
-    (hc : get m.chainsOf id = some e.name) (hb : bestShadowed (candidates (del m.shadowed id) pd) e.name = none) :
-    m.process pd id none = ({ m with
-      chains := del m.chains e.name, chainsOf := del m.chainsOf id, routes := del m.routes e.name,
-      ifaceToID := del m.ifaceToID e.name, active := del m.active id, shadowed := del m.shadowed id }, none) := by
-  unfold candidates at hb
+theorem pr_active (m : Mgr) (pd : Pending) (id : Nat) (o : Ep) (he : get m.active id = some o)
+    (hc : get m.chainsOf id = some o.name) :
+    m.process pd id none = ({ rel m id o with shadowed := del m.shadowed id } : Mgr).promote pd o.name := by
   unfold Mgr.process
-  simp [he, removeActive_some m id e hc, hb]
+  simp [he, removeActive_some m id o hc, rel]
 
-theorem process_remove_active_some (m : Mgr) (pd : Pending) (id : Nat) (e : Ep) (b : Nat) (eb : Ep)
-    (he : get m.active id = some e) (hc : get m.chainsOf id = some e.name)
-    (hb : bestShadowed (candidates (del m.shadowed id) pd) e.name = some b)
-    (hgb : get (del m.shadowed id) b = some eb) :
-    m.process pd id none = ({ m with
-      chains := del m.chains e.name, chainsOf := del m.chainsOf id, routes := del m.routes e.name,
-      ifaceToID := del m.ifaceToID e.name, active := del m.active id, shadowed := del (del m.shadowed id) b },
-      some (b, eb)) := by
-  unfold candidates at hb
-  unfold Mgr.process
-  simp [he, removeActive_some m id e hc, hb, hgb]
-
-/-- R1: removal of an endpoint that is not active (shadowed, promoted-but-pending, or unknown). -/
-theorem good_remove_inactive (m : Mgr) (l : Nat → Option Ep) (P : Pending) (id : Nat) (g : Good m l P)
-    (hP : get P id = some none) (hna : get m.active id = none) :
-    Good ({ m with chainsOf := del m.chainsOf id, active := del m.active id, shadowed := del m.shadowed id } : Mgr)
-      (updL l id none) (del P id) := by
-  obtain ⟨a1, a2, a3, b1, b2, c, d1a, d1b, d2a, d2b, d3a, d3b, nd, np, nr⟩ := g
-  constructor
-  · clause
-  · clause
-  · clause
-  · clause
-  · clause
-  · clause
-  · clause
-  · clause
-  · clause
-  · clause
-  · clause
-  · clause
-  · exact nodupKeys_del _ _ nd
-  · exact nodupKeys_del _ _ np
-  · clause
-
-/-- R2: removal of an active endpoint; nobody without a pending entry of its own waits behind it. -/
-theorem good_remove_active (m : Mgr) (l : Nat → Option Ep) (P : Pending) (id : Nat) (e : Ep) (g : Good m l P)
-    (hP : get P id = some none) (he : get m.active id = some e)
-    (hnone : ∀ j ej, get (candidates (del m.shadowed id) (del P id)) j = some ej → ej.name ≠ e.name) :
-    Good ({ m with
-      chains := del m.chains e.name, chainsOf := del m.chainsOf id, routes := del m.routes e.name,
-      ifaceToID := del m.ifaceToID e.name, active := del m.active id, shadowed := del m.shadowed id } : Mgr)
-      (updL l id none) (del P id) := by
-  obtain ⟨a1, a2, a3, b1, b2, c, d1a, d1b, d2a, d2b, d3a, d3b, nd, np, nr⟩ := g
-  simp only [get_candidates, get_del] at hnone
-  constructor
-  · clause
-  · clause
-  · clause
-  · clause
-  · clause
-  · intro i ei hs
-    simp only [get_del] at hs ⊢
-    have hi : id ≠ i := by intro h; subst h; simp at hs
-    simp only [hi, if_false] at hs ⊢
-    rcases c i ei hs with ⟨a, ha, hlt⟩ | h2 | ⟨b, eb, hb, hbn, hlt⟩
-    · by_cases hn : e.name = ei.name
-      · -- its holder was `id`: it must have an entry of its own, otherwise it would be a candidate
-        right; left
-        intro hnone'
-        exact hnone i ei (by simp [hi, hnone', hs]) hn.symm
-      · left; exact ⟨a, by simp [hn, ha], hlt⟩
-    · right; left; exact h2
-    · right; right
-      refine ⟨b, eb, ?_, hbn, hlt⟩
-      have : id ≠ b := by intro h; subst h; rw [hP] at hb; cases hb
-      simp [this, hb]
-  · clause
-  · clause
-  · clause
-  · clause
-  · clause
-  · clause
-  · exact nodupKeys_del _ _ nd
-  · exact nodupKeys_del _ _ np
-  · clause
-
-/-- R3: removal of an active endpoint; the smallest endpoint waiting behind it that has no pending entry
-of its own is queued for promotion. -/
-theorem good_remove_promote (m : Mgr) (l : Nat → Option Ep) (P : Pending) (id : Nat) (e : Ep) (b : Nat) (eb : Ep)
-    (g : Good m l P) (hP : get P id = some none) (he : get m.active id = some e)
-    (hb : get (candidates (del m.shadowed id) (del P id)) b = some eb) (hbn : eb.name = e.name)
-    (hmin : ∀ j ej, get (candidates (del m.shadowed id) (del P id)) j = some ej → ej.name = e.name → b ≤ j) :
-    Good ({ m with
-      chains := del m.chains e.name, chainsOf := del m.chainsOf id, routes := del m.routes e.name,
-      ifaceToID := del m.ifaceToID e.name, active := del m.active id, shadowed := del (del m.shadowed id) b } : Mgr)
-      (updL l id none) (set (del P id) b (some eb)) := by
-  obtain ⟨a1, a2, a3, b1, b2, c, d1a, d1b, d2a, d2b, d3a, d3b, nd, np, nr⟩ := g
-  simp only [get_candidates, get_del] at hmin hb
-  have hbid : b ≠ id := by intro h; subst h; simp at hb
-  have hbP : get P b = none := by
-    have := hb
-    simp only [Ne.symm hbid, if_false] at this
-    cases hq : get P b with
-    | none => rfl
-    | some q => simp [hq] at this
-  have hb' : get m.shadowed b = some eb := by
-    have := hb
-    simp only [Ne.symm hbid, if_false, hbP, Option.isNone_none, if_true] at this
-    exact this
-  have hlb := (a2 b eb hb').1
-  constructor
-  · clause
-  · clause
-  · clause
-  · clause
-  · clause
-  · intro i ei hs
-    simp only [get_del, get_set] at hs ⊢
-    have hi1 : id ≠ i := by intro h; subst h; simp at hs
-    have hi2 : b ≠ i := by intro h; subst h; simp at hs
-    simp only [hi1, hi2, if_false] at hs ⊢
-    rcases c i ei hs with ⟨a, ha, hlt⟩ | h2 | ⟨b', eb', hb2, hbn2, hlt⟩
-    · by_cases hn : e.name = ei.name
-      · by_cases hpi : get P i = none
-        · -- a candidate on the freed interface: the promoted one is smaller
-          right; right
-          refine ⟨b, eb, by simp, by rw [hbn, hn], ?_⟩
-          have := hmin i ei (by simp [hi1, hpi, hs]) hn.symm
-          omega
-        · right; left; exact hpi
-      · left; exact ⟨a, by simp [hn, ha], hlt⟩
-    · right; left; exact h2
-    · right; right
-      refine ⟨b', eb', ?_, hbn2, hlt⟩
-      have h1 : id ≠ b' := by intro h; subst h; rw [hP] at hb2; cases hb2
-      have h2 : b ≠ b' := by intro h; subst h; rw [hbP] at hb2; cases hb2
-      simp [h1, h2, hb2]
-  · clause
-  · clause
-  · clause
-  · clause
-  · clause
-  · clause
-  · exact nodupKeys_del _ _ (nodupKeys_del _ _ nd)
-  · exact nodupKeys_set _ _ _ (nodupKeys_del _ _ np)
-  · clause
-
-/-! ### Any one pending entry is processed -/
+theorem good_process_remove (m : Mgr) (l : Nat → Option Ep) (P : Pending) (id : Nat) (g : Good m l P)
+    (hP : get P id = some none) : StepOK m l P id none (m.process (del P id) id none) := by
+  cases hold : get m.active id with
+  | none =>
+    rw [pr_inactive m _ id hold (g.d1b id hold)]
+    refine ⟨good_remove_inactive m l P id g hP hold, (by intro b e hbe; cases hbe), ?_⟩
+    intro x hx; simp only [get_del]; simp [Ne.symm hx]
+  | some o =>
+    have hsid : get m.shadowed id = none := by
+      cases hs : get m.shadowed id with
+      | none => rfl
+      | some e => have := (g.a2 id e hs).2; rw [hold] at this; cases this
+    rw [pr_active m _ id o hold (g.d1a id o hold)]
+    have hl : updL l id none id = none := by simp [updL]
+    rcases release_plain m ({ rel m id o with shadowed := del m.shadowed id } : Mgr) l P (del P id) id o g hold
+        (by intro j hj; rw [get_del]; simp [Ne.symm hj])
+        (by intro j; simp only [get_del]; split
+            · rename_i e; subst e; exact hsid.symm
+            · rfl)
+        (nodupKeys_del _ _ g.nd) with
+      ⟨hp, gr⟩ | ⟨b, eb, hp, gr, hb, hpb, hbid, hlb, hab⟩
+    · rw [hp]
+      have gd := good_drop_removal _ _ P id gr hP hl
+      refine ⟨good_congr _ _ _ _ _ _ gd (fun _ => rfl) (fun _ => rfl) ?_ (fun _ => rfl) (fun _ => rfl) (fun _ => rfl)
+        (fun _ => rfl) (fun _ => rfl) (nodupKeys_del _ _ g.nd) gd.np, (by intro b e hbe; cases hbe), ?_⟩
+      · intro k; simp only [rel, get_del]; split
+        · rename_i e; subst e; exact hsid.symm
+        · rfl
+      · intro x hx; simp only [rel, get_del]; simp [Ne.symm hx]
+    · rw [hp]
+      have hPb : get (set P b (some eb)) id = some none := by rw [get_set]; simp [hbid, hP]
+      have gd := good_drop_removal _ _ (set P b (some eb)) id gr hPb hl
+      refine ⟨good_congr _ _ _ _ _ _ gd (fun _ => rfl) (fun _ => rfl) ?_ (fun _ => rfl) (fun _ => rfl) (fun _ => rfl)
+        ?_ (fun _ => rfl) (nodupKeys_del _ _ (nodupKeys_del _ _ g.nd))
+        (nodupKeys_set _ _ _ (nodupKeys_del _ _ g.np)), ?_, ?_⟩
+      · intro k; simp only [rel, get_del]; grind
+      · intro k; simp only [nextP, get_set, get_del]; grind
+      · intro b' e' hbe; simp only [Option.some.injEq, Prod.mk.injEq] at hbe; obtain ⟨rfl, rfl⟩ := hbe
+        refine ⟨Or.inl rfl, hpb, hbid, hlb, ?_⟩
+        simp only [rel, get_del]; simp [Ne.symm hbid, hab]
+      · intro x hx; simp only [rel, get_del]; simp [Ne.symm hx]
 
 theorem good_process (m : Mgr) (l : Nat → Option Ep) (P : Pending) (id : Nat) (w : Option Ep) (g : Good m l P)
-    (hP : get P id = some w) :
-    Good (m.process (del P id) id w).1 (updL l id w)
-      (match (m.process (del P id) id w).2 with
-       | some (b, e) => set (del P id) b (some e)
-       | none => del P id) ∧
-    (∀ b e, (m.process (del P id) id w).2 = some (b, e) →
-      w = none ∧ get P b = none ∧ b ≠ id ∧ l b = some e) := by
+    (hP : get P id = some w) : StepOK m l P id w (m.process (del P id) id w) := by
   cases w with
-  | some w =>
-    have hold : ∀ o, get m.active id = some o → o.name = w.name := fun o ho => g.nr id w hP o (g.a1 id o ho)
-    cases h : get m.ifaceToID w.name with
-    | none =>
-      have hf : ∀ a, get m.ifaceToID w.name = some a → a = id := by intro a ha; rw [h] at ha; cases ha
-      rw [process_update_free m _ id w hf, activate_norename m id _ w hold]
-      exact ⟨good_update_free m l P id w g hP hf, by intro b e hbe; cases hbe⟩
-    | some a =>
-      by_cases hai : a = id
-      · have hf : ∀ a', get m.ifaceToID w.name = some a' → a' = id := by
-          intro a' ha'; rw [h] at ha'; cases ha'; exact hai
-        rw [process_update_free m _ id w hf, activate_norename m id _ w hold]
-        exact ⟨good_update_free m l P id w g hP hf, by intro b e hbe; cases hbe⟩
-      · by_cases hlt : a < id
-        · rw [process_update_shadow m _ id w a h hlt]
-          exact ⟨good_update_shadow m l P id w a g hP h hlt, by intro b e hbe; cases hbe⟩
-        · have hlt' : id < a := by omega
-          obtain ⟨ea, hea, hean⟩ := g.b1 _ _ h
-          rw [process_update_takeover m _ id w a ea h hlt' hea]
-          have hc : get ({ m with shadowed := set m.shadowed a ea } : Mgr).chainsOf a = some ea.name := g.d1a a ea hea
-          rw [removeActive_some _ a ea hc, activate_norename _ id _ w hold]
-          have := good_update_takeover m l P id w a ea g hP h hea hlt'
-          simp only [hean] at this ⊢
-          exact ⟨this, by intro b e hbe; cases hbe⟩
-  | none =>
-    cases he : get m.active id with
-    | none =>
-      rw [process_remove_inactive m _ id he (g.d1b id he)]
-      exact ⟨good_remove_inactive m l P id g hP he, by intro b e hbe; cases hbe⟩
-    | some e =>
-      have hc : get m.chainsOf id = some e.name := g.d1a id e he
-      have hnd : NodupKeys (candidates (del m.shadowed id) (del P id)) := nodup_candidates _ _ (nodupKeys_del _ _ g.nd)
-      cases hb : bestShadowed (candidates (del m.shadowed id) (del P id)) e.name with
-      | none =>
-        rw [process_remove_active_none m _ id e he hc hb]
-        exact ⟨good_remove_active m l P id e g hP he (bestShadowed_none _ hnd _ hb), by intro b e hbe; cases hbe⟩
-      | some b =>
-        obtain ⟨⟨eb, hgb, hbn⟩, hmin⟩ := bestShadowed_some _ hnd _ b hb
-        have hgb' : get (del m.shadowed id) b = some eb := by
-          rw [get_candidates] at hgb; split at hgb
-          · exact hgb
-          · cases hgb
-        rw [process_remove_active_some m _ id e b eb he hc hb hgb']
-        refine ⟨good_remove_promote m l P id e b eb g hP he hgb hbn hmin, ?_⟩
-        intro b' e' hbe
-        simp only [Option.some.injEq, Prod.mk.injEq] at hbe
-        obtain ⟨rfl, rfl⟩ := hbe
-        have hbid : b ≠ id := by intro h; subst h; simp [get_del] at hgb'
-        have hsb : get m.shadowed b = some eb := by simpa [get_del, Ne.symm hbid] using hgb'
-        have hpb : get P b = none := by
-          rw [get_candidates] at hgb
-          cases hq : get (del P id) b with
-          | none => simpa [get_del, Ne.symm hbid] using hq
-          | some q => simp [hq] at hgb
-        exact ⟨rfl, hpb, hbid, (g.a2 b eb hsb).1⟩
-
+  | some w => exact good_process_update m l P id w g hP
+  | none => exact good_process_remove m l P id g hP
 /-! ### A whole batch, in any processing order -/
 
 /-- the live endpoints once every pending entry has been applied -/
@@ -555,13 +837,26 @@ def lAfter (l : Nat → Option Ep) (P : Pending) : Nat → Option Ep :=
     | some v => v
     | none => l id
 
-/-- termination measure of the pending map: a removal can queue one more update. -/
-def mu (P : Pending) : Nat := (P.map (fun p => if p.2.isNone then 2 else 1)).sum
+/-- weight of a pending entry: processing a removal, or an update of an endpoint that is active, can
+queue one promotion (an update of an endpoint that is not active) -/
+def wt (m : Mgr) (p : Nat × Option Ep) : Nat := if p.2.isNone || (get m.active p.1).isSome then 2 else 1
 
-theorem mu_pos_of_ne_nil (P : Pending) (h : P ≠ []) : 0 < mu P := by
+/-- termination measure of the pending map -/
+def mu (m : Mgr) (P : Pending) : Nat := (P.map (wt m)).sum
+
+theorem wt_pos (m : Mgr) (p : Nat × Option Ep) : 1 ≤ wt m p := by unfold wt; split <;> omega
+theorem wt_le (m : Mgr) (p : Nat × Option Ep) : wt m p ≤ 2 := by unfold wt; split <;> omega
+
+theorem mu_pos_of_ne_nil (m : Mgr) (P : Pending) (h : P ≠ []) : 0 < mu m P := by
   cases P with
   | nil => exact absurd rfl h
-  | cons p r => unfold mu; simp only [List.map_cons, List.sum_cons]; split <;> omega
+  | cons p r => unfold mu; simp only [List.map_cons, List.sum_cons]; have := wt_pos m p; omega
+
+theorem mu_le (m : Mgr) (P : Pending) : mu m P ≤ 2 * P.length := by
+  unfold mu
+  induction P with
+  | nil => simp
+  | cons p r ih => simp only [List.map_cons, List.sum_cons, List.length_cons]; have := wt_le m p; omega
 
 theorem del_of_absent (P : Pending) (b : Nat) (h : get P b = none) : del P b = P := by
   induction P with
@@ -576,8 +871,8 @@ theorem del_of_absent (P : Pending) (b : Nat) (h : get P b = none) : del P b = P
       simp only [List.filter, ne_eq, e, not_false_eq_true, decide_true]
       rw [this]
 
-theorem mu_del (P : Pending) (hn : NodupKeys P) (id : Nat) (w : Option Ep) (h : get P id = some w) :
-    mu (del P id) + (if w.isNone then 2 else 1) = mu P := by
+theorem mu_del (m : Mgr) (P : Pending) (hn : NodupKeys P) (id : Nat) (w : Option Ep) (h : get P id = some w) :
+    mu m (del P id) + wt m (id, w) = mu m P := by
   induction P with
   | nil => simp [C18.get] at h
   | cons p r ih =>
@@ -599,12 +894,27 @@ theorem mu_del (P : Pending) (hn : NodupKeys P) (id : Nat) (w : Option Ep) (h : 
         simp [del, List.filter, e]
       rw [hd]; unfold mu at this ⊢; simp only [List.map_cons, List.sum_cons]; omega
 
-theorem mu_set_fresh (P : Pending) (b : Nat) (e : Ep) (h : get P b = none) : mu (set P b (some e)) = mu P + 1 := by
+theorem mu_set_fresh (m : Mgr) (P : Pending) (b : Nat) (v : Option Ep) (h : get P b = none) :
+    mu m (set P b v) = mu m P + wt m (b, v) := by
   unfold C18.set
   rw [del_of_absent P b h]
-  unfold mu; simp only [List.map_cons, List.sum_cons, Option.isNone_some]; simp; omega
+  unfold mu; simp only [List.map_cons, List.sum_cons]; omega
 
-theorem good_resolveAll (fuel : Nat) : ∀ (m : Mgr) (l : Nat → Option Ep) (P : Pending), Good m l P → mu P ≤ fuel →
+theorem mu_mono (m m' : Mgr) (P : Pending) (h : ∀ p ∈ P, wt m' p ≤ wt m p) : mu m' P ≤ mu m P := by
+  unfold mu
+  induction P with
+  | nil => simp
+  | cons p r ih =>
+    simp only [List.map_cons, List.sum_cons]
+    have := h p (by simp)
+    have := ih (fun q hq => h q (by simp [hq]))
+    omega
+
+theorem mem_del_ne (P : Pending) (id : Nat) (p : Nat × Option Ep) (h : p ∈ del P id) : p.1 ≠ id := by
+  unfold del at h
+  simpa using (List.mem_filter.1 h).2
+
+theorem good_resolveAll (fuel : Nat) : ∀ (m : Mgr) (l : Nat → Option Ep) (P : Pending), Good m l P → mu m P ≤ fuel →
     ∀ m' ∈ m.resolveAll fuel P, Good m' (lAfter l P) [] := by
   induction fuel with
   | zero =>
@@ -612,7 +922,7 @@ theorem good_resolveAll (fuel : Nat) : ∀ (m : Mgr) (l : Nat → Option Ep) (P 
     have hP : P = [] := by
       cases P with
       | nil => rfl
-      | cons p r => have := mu_pos_of_ne_nil (p :: r) (by simp); omega
+      | cons p r => have := mu_pos_of_ne_nil m (p :: r) (by simp); omega
     subst hP
     simp only [Mgr.resolveAll, List.mem_singleton] at hm'
     subst hm'
@@ -629,13 +939,26 @@ theorem good_resolveAll (fuel : Nat) : ∀ (m : Mgr) (l : Nat → Option Ep) (P 
       obtain ⟨q, hq, hm'⟩ := hm'
       obtain ⟨id, w⟩ := q
       have hP : get (p :: ps) id = some w := (get_eq_some_iff _ g.np id w).2 hq
-      obtain ⟨g1, hq1⟩ := good_process m l (p :: ps) id w g hP
-      have hmd := mu_del (p :: ps) g.np id w hP
+      obtain ⟨g1, hq1, hmono⟩ := good_process m l (p :: ps) id w g hP
+      have hmd := mu_del m (p :: ps) g.np id w hP
+      have hwt : ∀ q ∈ del (p :: ps) id, wt (m.process (del (p :: ps) id) id w).1 q ≤ wt m q := by
+        intro q hq
+        have hne := mem_del_ne _ _ q hq
+        unfold wt
+        cases hq2 : q.2.isNone
+        · simp only [Bool.false_or]
+          cases ha : (get (m.process (del (p :: ps) id) id w).1.active q.1).isSome
+          · simp only [Bool.false_eq_true, if_false]; split <;> omega
+          · have := hmono q.1 hne ha; simp [this]
+        · simp
+      have hm1 := mu_mono m _ _ hwt
       cases hr : (m.process (del (p :: ps) id) id w).2 with
       | none =>
         simp only [hr] at hm' g1
-        have := ih _ _ _ g1 (by split at hmd <;> omega) m' hm'
-        have hl : lAfter (updL l id w) (del (p :: ps) id) = lAfter l (p :: ps) := by
+        have hw1 := wt_pos m (id, w)
+        have := ih _ _ _ g1 (by simp only [nextP]; omega) m' hm'
+        have hl : lAfter (updL l id w) (nextP (p :: ps) id none) = lAfter l (p :: ps) := by
+          show lAfter (updL l id w) (del (p :: ps) id) = lAfter l (p :: ps)
           funext x
           unfold lAfter updL
           rw [get_del]
@@ -647,12 +970,18 @@ theorem good_resolveAll (fuel : Nat) : ∀ (m : Mgr) (l : Nat → Option Ep) (P 
       | some be =>
         obtain ⟨b, e⟩ := be
         simp only [hr] at hm' g1
-        obtain ⟨hw, hpb, hbid, hlb⟩ := hq1 b e hr
-        subst hw
+        obtain ⟨hw, hpb, hbid, hlb, hab⟩ := hq1 b e hr
         have hpb' : get (del (p :: ps) id) b = none := by rw [get_del]; simp [Ne.symm hbid, hpb]
-        have hms := mu_set_fresh (del (p :: ps) id) b e hpb'
-        have := ih _ _ _ g1 (by simp at hmd; omega) m' hm'
-        have hl : lAfter (updL l id none) (set (del (p :: ps) id) b (some e)) = lAfter l (p :: ps) := by
+        have hms := mu_set_fresh (m.process (del (p :: ps) id) id w).1 (del (p :: ps) id) b (some e) hpb'
+        have hwb : wt (m.process (del (p :: ps) id) id w).1 (b, some e) = 1 := by simp [wt, hab]
+        have hw2 : wt m (id, w) = 2 := by
+          unfold wt
+          rcases hw with h | h
+          · subst h; simp
+          · simp [h]
+        have := ih _ _ _ g1 (by simp only [nextP]; omega) m' hm'
+        have hl : lAfter (updL l id w) (nextP (p :: ps) id (some (b, e))) = lAfter l (p :: ps) := by
+          show lAfter (updL l id w) (set (del (p :: ps) id) b (some e)) = lAfter l (p :: ps)
           funext x
           unfold lAfter updL
           rw [get_set, get_del]
@@ -713,12 +1042,11 @@ theorem good_ext (m : Mgr) (l l' : Nat → Option Ep) (P : Pending) (h : ∀ id,
 
 /-- one batch, whatever the processing order -/
 theorem good_batch (m : Mgr) (l : GoMap Nat Ep) (us : Batch) (g : Good m (get l) [])
-    (hnr : ∀ id w, get (mkPending us) id = some (some w) → ∀ e, get l id = some e → e.name = w.name)
     (m' : Mgr) (hm : m' ∈ m.batch us) : Good m' (get (liveB l us)) [] := by
   have hnp := nodup_mkPending us
   have g0 : Good m (get l) (mkPending us) := by
-    obtain ⟨a1, a2, a3, b1, b2, c, d1a, d1b, d2a, d2b, d3a, d3b, nd, np, nr⟩ := g
-    refine ⟨a1, a2, ?_, b1, b2, ?_, d1a, d1b, d2a, d2b, d3a, d3b, nd, hnp, hnr⟩
+    obtain ⟨a1, a2, a3, b1, b2, c, d1a, d1b, d2a, d2b, d3a, d3b, nd, np⟩ := g
+    refine ⟨a1, a2, ?_, b1, b2, ?_, d1a, d1b, d2a, d2b, d3a, d3b, nd, hnp⟩
     · intro id e h
       rcases a3 id e h with h1 | h1 | h1
       · exact Or.inl h1
@@ -729,12 +1057,8 @@ theorem good_batch (m : Mgr) (l : GoMap Nat Ep) (us : Batch) (g : Good m (get l)
       · exact Or.inl h1
       · exact absurd rfl h1
       · simp [C18.get] at hb
-  have hmu : mu (mkPending us) ≤ 2 * (mkPending us).length + 2 := by
-    unfold mu
-    generalize mkPending us = P
-    induction P with
-    | nil => simp
-    | cons p r ih => simp only [List.map_cons, List.sum_cons, List.length_cons]; split <;> omega
+  have hmu : mu m (mkPending us) ≤ 2 * (mkPending us).length + 2 := by
+    have := mu_le m (mkPending us); omega
   have := good_resolveAll _ m (get l) (mkPending us) g0 hmu m' hm
   exact good_ext _ _ _ _ (fun id => (get_fold_applyEntry _ hnp l id).symm) this
 
@@ -745,14 +1069,14 @@ theorem nodup_liveB (l : GoMap Nat Ep) (us : Batch) (h : NodupKeys l) : NodupKey
   nodup_fold_applyEntry _ _ h
 
 theorem good_reach (bs : List Batch) : ∀ (m : Mgr) (l : GoMap Nat Ep), Good m (get l) [] → NodupKeys l →
-    NoRenameBsFrom l bs → ∀ m', ReachFrom m bs m' →
+    ∀ m', ReachFrom m bs m' →
     Good m' (get (bs.foldl liveB l)) [] ∧ NodupKeys (bs.foldl liveB l) := by
   induction bs with
-  | nil => intro m l g hl _ m' hr; simp only [ReachFrom] at hr; subst hr; exact ⟨g, hl⟩
+  | nil => intro m l g hl m' hr; simp only [ReachFrom] at hr; subst hr; exact ⟨g, hl⟩
   | cons us r ih =>
-    intro m l g hl hnr m' hr
+    intro m l g hl m' hr
     obtain ⟨m1, hm1, hr'⟩ := hr
-    exact ih m1 (liveB l us) (good_batch m l us g hnr.1 m1 hm1) (nodup_liveB l us hl) hnr.2 m' hr'
+    exact ih m1 (liveB l us) (good_batch m l us g m1 hm1) (nodup_liveB l us hl) m' hr'
 
 /-- In a `Good` state with nothing pending the holder of an interface is the minimum live claimant. -/
 theorem best_of_good (m : Mgr) (l : GoMap Nat Ep) (g : Good m (get l) []) (hl : NodupKeys l) (name : Nat) :
@@ -823,6 +1147,7 @@ theorem bestShadowed_congr (l1 l2 : GoMap Nat Ep) (h1 : NodupKeys l1) (h2 : Nodu
       have := hmina b eb (by rw [h]; exact heb) hnb
       have := hminb a ea (by rw [← h]; exact hea) hna
       congr 1; omega
+
 
 
 end CalicoVerif.C44
